@@ -53,6 +53,9 @@ pub struct TableDef {
     pub uniques: Vec<Vec<String>>,
     /// true if the first unique is declared PRIMARY KEY
     pub pk: bool,
+    /// names of indexes created by CREATE UNIQUE INDEX / ADD CONSTRAINT
+    #[serde(default)]
+    pub index_names: Vec<String>,
 }
 
 impl TableDef {
@@ -62,6 +65,7 @@ impl TableDef {
             cols: cols.iter().map(|(n, t)| ColDef { name: n.to_string(), ty: *t, not_null: false, default: None }).collect(),
             uniques: vec![],
             pk: false,
+            index_names: vec![],
         }
     }
     pub fn with_unique(mut self, cols: &[&str]) -> Self {
@@ -317,6 +321,10 @@ pub struct Model {
     pub enabled_hazards: BTreeSet<String>,
     /// transactions with an in-place-update hazard pending (KF-update-in-place)
     pub pending_update: BTreeSet<Tx>,
+    /// transactions that re-inserted a unique key they deleted themselves (KF-reinsert-overwrites-index-entry
+    /// fires if anyone else begins before they commit, or if they abort)
+    #[serde(default)]
+    pub pending_reinsert: BTreeSet<Tx>,
     pub reopen_count: u32,
     pub vacuum_count: u32,
     /// highest transaction that has committed so far and whether the most recent commit was by an
@@ -331,11 +339,16 @@ pub const KF_ABORTED_DELETE: &str = "KF-aborted-delete-sticks";
 pub const KF_UNIQUE_CONCURRENT: &str = "KF-unique-concurrent-inserters";
 pub const KF_UPDATE_UNIQUE_TABLE: &str = "KF-update-on-indexed-table";
 pub const KF_DROP_IN_TXN: &str = "KF-drop-table-in-transaction";
-pub const KF_ALTER: &str = "KF-alter-table";
+pub const KF_ALTER: &str = "KF-alter-in-transaction";
+pub const KF_ADD_COLUMN: &str = "KF-add-column-fails";
+pub const KF_DROP_COLUMN: &str = "KF-drop-column-corrupts-rows";
 pub const KF_FLUSH_ZERO_CACHE: &str = "KF-flush-zero-cache";
 pub const KF_PARTIAL_STATEMENT: &str = "KF-failed-statement-partial-effects";
 pub const KF_ADD_UNIQUE: &str = "KF-alter-add-unique-not-enforced";
 pub const KF_INDEX_ABORTED_INSERT: &str = "KF-index-entry-of-aborted-insert";
+pub const KF_NULL_IN_UNIQUE: &str = "KF-null-in-unique-column";
+pub const KF_INDEX_DDL_IN_TXN: &str = "KF-create-index-in-transaction";
+pub const KF_REINSERT_INDEX: &str = "KF-reinsert-overwrites-index-entry";
 
 impl Model {
     pub fn new(enabled: &BTreeSet<String>) -> Model {
@@ -347,6 +360,7 @@ impl Model {
             taint: vec![],
             enabled_hazards: enabled.clone(),
             pending_update: BTreeSet::new(),
+            pending_reinsert: BTreeSet::new(),
             reopen_count: 0,
             vacuum_count: 0,
             max_committed: None,
@@ -377,6 +391,9 @@ impl Model {
         if !self.pending_update.is_empty() {
             self.hazard(KF_UPDATE_IN_PLACE);
         }
+        if !self.pending_reinsert.is_empty() {
+            self.hazard(KF_REINSERT_INDEX);
+        }
         self.txs.push(TxInfo { state: TxState::Active, begin_seq: self.seq, explicit });
         self.seq += 1;
         id
@@ -386,6 +403,7 @@ impl Model {
         self.txs[t as usize].state = TxState::Committed(self.seq);
         self.seq += 1;
         self.pending_update.remove(&t);
+        self.pending_reinsert.remove(&t);
         match self.max_committed {
             Some(m) if m > t => self.last_commit_out_of_order = true,
             _ => {
@@ -399,6 +417,9 @@ impl Model {
         self.txs[t as usize].state = TxState::Aborted;
         if self.pending_update.remove(&t) {
             self.hazard(KF_UPDATE_IN_PLACE);
+        }
+        if self.pending_reinsert.remove(&t) {
+            self.hazard(KF_REINSERT_INDEX);
         }
     }
 
@@ -516,9 +537,16 @@ impl Model {
     /// Err(Unique) for a visible duplicate; fires KF-unique-concurrent for a concurrent one.
     fn check_unique(&mut self, t: Tx, ti: usize, def: &TableDef, row: &[Val], skip: Option<usize>) -> Result<(), ErrClass> {
         for u in def.uniques.clone() {
-            let Some(k) = Self::unique_key(def, &u, row) else { continue };
+            let Some(k) = Self::unique_key(def, &u, row) else {
+                // SQL: a NULL in a UNIQUE column never conflicts
+                self.hazard(KF_NULL_IN_UNIQUE);
+                continue;
+            };
             let mut concurrent_dup = false;
             let mut aborted_dup = false;
+            let mut visible_dup = false;
+            let mut reinsert = false;
+            let mut pend_reinsert = false;
             for (i, r) in self.tables[ti].rows.iter().enumerate() {
                 if Some(i) == skip {
                     continue;
@@ -531,7 +559,24 @@ impl Model {
                 }
                 if let Some(v) = self.row_visible(t, r) {
                     if Self::unique_key(def, &u, v).as_ref() == Some(&k) {
-                        return Err(ErrClass::Unique);
+                        visible_dup = true;
+                        // the duplicate this snapshot still sees was deleted by a concurrent transaction:
+                        // whether the statement "would break the constraint" is a matter of definition
+                        if r.xmax.map(|d| self.concurrent(t, d)).unwrap_or(false) {
+                            concurrent_dup = true;
+                        }
+                    }
+                }
+                // a deleted row with the same key whose index entry the insert will overwrite in place
+                // while some snapshot may still need the old entry
+                if let Some(d) = r.xmax {
+                    let same_key = r.versions.iter().any(|(_, v)| v.len() == def.cols.len() && Self::unique_key(def, &u, v).as_ref() == Some(&k));
+                    let d_live = self.txs[d as usize].state != TxState::Aborted;
+                    let others_active = self.active_txs().into_iter().any(|x| x != t);
+                    if same_key && d_live && others_active {
+                        reinsert = true;
+                    } else if same_key && d == t && self.txs[t as usize].explicit && self.enabled_hazards.contains(KF_REINSERT_INDEX) {
+                        pend_reinsert = true;
                     }
                 }
                 // rows written by concurrent transactions that may end up live
@@ -549,6 +594,15 @@ impl Model {
             }
             if aborted_dup {
                 self.hazard(KF_INDEX_ABORTED_INSERT);
+            }
+            if reinsert {
+                self.hazard(KF_REINSERT_INDEX);
+            }
+            if pend_reinsert {
+                self.pending_reinsert.insert(t);
+            }
+            if visible_dup {
+                return Err(ErrClass::Unique);
             }
         }
         Ok(())
@@ -648,6 +702,9 @@ impl Model {
             Stmt::Update { table, set, pred } => {
                 let ti = self.find_table(t, table).ok_or(ErrClass::Bind)?;
                 let def = self.def_for(t, &self.tables[ti]).clone();
+                if !def.uniques.is_empty() {
+                    self.hazard(KF_UPDATE_UNIQUE_TABLE);
+                }
                 let mut n = 0;
                 let targets: Vec<(usize, Vec<Val>)> = self.visible_rows(t, ti);
                 for (i, v) in targets {
@@ -660,11 +717,11 @@ impl Model {
                         if nv == v {
                             // an update that changes nothing still counts as updated in SQL
                         }
-                        Self::check_row_shape(&def, &nv)?;
-                        self.check_unique(t, ti, &def, &nv, Some(i))?;
                         if !def.uniques.is_empty() {
                             self.hazard(KF_UPDATE_UNIQUE_TABLE);
                         }
+                        Self::check_row_shape(&def, &nv)?;
+                        self.check_unique(t, ti, &def, &nv, Some(i))?;
                         let rr = self.tables[ti].rows[i].clone();
                         if self.concurrent_writer(t, &rr) {
                             if !self.hazard(KF_NO_WW_CONFLICT) {
@@ -686,12 +743,19 @@ impl Model {
                 }
                 Ok(Exp::Count(n))
             }
-            Stmt::CreateUniqueIndex { table, cols, .. } => {
+            Stmt::CreateUniqueIndex { table, cols, name } => {
                 let ti = self.find_table(t, table).ok_or(ErrClass::Bind)?;
                 let mut def = self.def_for(t, &self.tables[ti]).clone();
                 for c in cols {
                     def.col_idx(c).ok_or(ErrClass::Bind)?;
                 }
+                if def.index_names.contains(name) {
+                    return Err(ErrClass::AlreadyExists);
+                }
+                if self.txs[t as usize].explicit || self.active_txs().len() > 1 {
+                    self.hazard(KF_INDEX_DDL_IN_TXN);
+                }
+                def.index_names.push(name.clone());
                 // existing duplicates make the index creation fail
                 let vis = self.visible_rows(t, ti);
                 let mut seen = BTreeSet::new();
@@ -723,7 +787,7 @@ impl Model {
                 if def.col_idx(&col.name).is_some() {
                     return Err(ErrClass::AlreadyExists);
                 }
-                self.hazard(KF_ALTER);
+                self.hazard(KF_ADD_COLUMN);
                 def.cols.push(col.clone());
                 let fill = col.default.clone().unwrap_or(Val::Null);
                 // rows get a new version with the added column
@@ -740,7 +804,7 @@ impl Model {
                 let ti = self.find_table(t, table).ok_or(ErrClass::Bind)?;
                 let mut def = self.def_for(t, &self.tables[ti]).clone();
                 let ci = def.col_idx(col).ok_or(ErrClass::Bind)?;
-                self.hazard(KF_ALTER);
+                self.hazard(KF_DROP_COLUMN);
                 def.cols.remove(ci);
                 def.uniques.retain(|u| !u.contains(col));
                 let vis = self.visible_rows(t, ti);
@@ -764,7 +828,9 @@ impl Model {
                         }
                     }
                 }
-                self.hazard(KF_ALTER);
+                if self.txs[t as usize].explicit || self.active_txs().len() > 1 {
+                    self.hazard(KF_ALTER);
+                }
                 def.cols[ci].not_null = set;
                 self.tables[ti].defs.push((t, def));
                 Ok(Exp::Ddl)
@@ -963,9 +1029,10 @@ impl Model {
             s.push(']');
         }
         s.push_str(&format!(
-            " open={:?} pend={} taint={:?} reopen={} vac={} ooo={}",
+            " open={:?} pend={}/{} taint={:?} reopen={} vac={} ooo={}",
             self.sessions.keys().collect::<Vec<_>>(),
             self.pending_update.len(),
+            self.pending_reinsert.len(),
             self.taint,
             self.reopen_count.min(1),
             self.vacuum_count.min(1),
